@@ -88,6 +88,7 @@ check_C02() {
 check_C07() {
   build_proxy
   wire_part wire stamp
+  wire_part multi multistamp
 }
 
 check_C06() {
